@@ -725,6 +725,10 @@ func (s *Store[K, V]) sinkWrite(item WriteBufItem[K, V]) {
 			return
 		}
 
+		// the value changed, so a copy in the secondary cache is stale:
+		// the entry has to be written back when it is evicted
+		entry.flag.SetFromNVM(false)
+
 		// update entry policy weight
 		entry.policyWeight += item.costChange
 
